@@ -87,7 +87,9 @@ R.contract(
         "implies(hit, len(self._buffer) == len(old(self._buffer)) - len(result) and forall(lambda k: implies(0 <= k < len(self._buffer), at(self._buffer, k) == at(old(self._buffer), k + len(result)))))",
         "implies(hit, forall(lambda x: self._ranges.gview[x] == (old(self._ranges.gview)[x] and not (old(self._buffer_start) <= x < self._buffer_start))))",
         "implies(hit, forall(lambda x: implies(old(self._buffer_start) <= x < self._buffer_start, old(self._ranges.gview)[x])))",
-        "not self._ranges.gview[self._buffer_start] or not hit and old(self._ranges.gview)[old(self._buffer_start)]",
+        # afterwards the delivery position is never covered (either the first range was pulled out, or no range starts there
+        # - and then none covers it, because ranges are sorted and all lie at or after the position)
+        "not self._ranges.gview[self._buffer_start]",
     ],
     prop=["C10"],
 )
